@@ -36,6 +36,17 @@ theorem absorb_total (s src : TC K) : (s.absorb src).total = s.total + src.commo
   simp only [Op.flatten, length_expand, TC.items, TC.commonCount, List.map_map]
   rfl
 
+/-- `update(other counter)` continues the stream by additions in which every key occurs exactly as often
+    as the other counter REPORTS it (so all theorems about `reach` apply to histories with such calls) -/
+theorem absorb_is_stream (w : Nat) (hw : 1 ≤ w) (ks js : List K) :
+    ∃ extra : List K, (reach w ks).absorb (reach w js) = reach w (ks ++ extra)
+      ∧ ∀ k, extra.count k = (reach w js).get k := by
+  refine ⟨expand (reach w js).items, ?_, ?_⟩
+  · simp [TC.absorb, TC.step, Op.flatten, reach, addAll_append]
+  · intro k
+    rw [count_expand]
+    exact wsum_items k _ (inv_reach w hw js).nodup
+
 /-- `total` equals the number of additions -/
 theorem total_eq_additions (w : Nat) (ks : List K) : (reach w ks).total = ks.length := by
   simp [reach, addAll_total, TC.init]
@@ -90,6 +101,31 @@ theorem uncommon_eq_culled (w : Nat) (ks : List K) :
   simp only [reach, ht]
   simp only [TC.commonCount, TC.init, List.map_nil, List.sum_nil, Nat.zero_add] at h ⊢
   omega
+
+/-- … and, key by key, it is the sum of all under-counts: over any duplicate-free list `U` of keys that
+    covers the stream, `get_uncommon_count() = Σ_{k ∈ U} (true count of k - reported count of k)` -/
+theorem uncommon_eq_shortfalls (w : Nat) (hw : 1 ≤ w) (ks : List K) (U : List K) (hU : U.Nodup)
+    (hks : ∀ k ∈ ks, k ∈ U) :
+    (reach w ks).uncommonCount = (U.map fun k => ks.count k - (reach w ks).get k).sum := by
+  have hi := inv_reach w hw ks
+  have hsub : ∀ k ∈ keysOf (reach w ks).cm, k ∈ U := by
+    intro k hk
+    apply hks
+    have h1 : lookup k (reach w ks).cm ≠ none := fun hn => (lookup_none_iff k _).mp hn hk
+    have h2 := hi.key k
+    cases hl : lookup k (reach w ks).cm with
+    | none => exact absurd hl h1
+    | some e =>
+      simp only [reach, hl] at h2
+      exact List.count_pos_iff.mp (by omega)
+  have hg : (U.map fun k => (reach w ks).get k).sum = ((reach w ks).cm.map (·.cnt)).sum :=
+    sum_get_eq_common U hU (reach w ks).total (reach w ks).w (reach w ks).bucket (reach w ks).cm
+      hi.nodup hsub
+  have hc := sum_count_eq_length U hU ks hks
+  have hs := sum_map_sub U (fun k => ks.count k) (fun k => (reach w ks).get k) (count_le_true w hw ks)
+  have ht := total_eq_additions w ks
+  unfold TC.uncommonCount TC.commonCount
+  rw [hs.1, hc, hg, ht]
 
 /-- `get_commonality()` is defined exactly when something was added, and then is a ratio in [0, 1]
     whose complement is the uncommon share: `common / total` with `common ≤ total`,
@@ -231,6 +267,9 @@ example : (reach 3 [0, 1]).len = 2 ∧ 3 * (([0, 1].length / 3 + 1).log2 + 1) = 
 example : ((reach 3 [0, 1, 1, 0, 2, 2, 0]).uncommonCount, culled (TC.init 3 : TC Nat) [0, 1, 1, 0, 2, 2, 0],
            (reach 3 [0, 1, 1, 0, 2, 2, 0]).commonality) = (4, 4, some (3, 7)) := by decide
 example : (reach 3 ([] : List Nat)).commonality = none := by decide
+-- per-key shortfalls of that stream over U = [0, 1, 2, 3]: (3-1) + (2-0) + (2-2) + 0 = 4
+example : ([0, 1, 2, 3].map fun k => [0, 1, 1, 0, 2, 2, 0].count k - (reach 3 [0, 1, 1, 0, 2, 2, 0]).get k)
+    = [2, 2, 0, 0] := by decide
 -- a key given positionally (3) and as a keyword (2) in ONE update call is counted 5 times
 example : ((TC.run 9 [Op.updateMapKw [(0, 3), (1, 1)] [(0, 2)]]).get 0,
            (TC.run 9 [Op.updateMapKw [(0, 3), (1, 1)] [(0, 2)]]).total) = (5, 6) := by decide
